@@ -126,13 +126,38 @@ fn run_main(r: &mut Runner, rng: &mut Rng, len: usize, cfg: &CrashCfg, fixed: Op
     let mut ncall = 0usize;
     let mut step = |r: &mut Runner, op: Op, bm: &mut BufModel, os: &mut Vec<OsOp>, calls: &mut Vec<CallInfo>| {
         let oc = r.apply(&op);
+        let mut sync_mismatch: Option<String> = None;
         for e in &r.real.all_events[seen_events..] {
             bm.step(e, os);
+            while applied_os < os.len() {
+                apply_os(&mut trace_img, &os[applied_os], None);
+                applied_os += 1;
+            }
+            // what the OS really held when an fsync was issued (hook H5 reads it back) against what
+            // the trace says it held: a flush that is reported but happens later, a write on another
+            // handle or offset, a file created or removed around the directory sync
+            match e {
+                Event::SyncedContent { file, len, fnv } => {
+                    let exp = trace_img.get(file);
+                    let ok = exp.map(|c| c.len() as u64 == *len && fnv64(c) == *fnv).unwrap_or(false);
+                    if !ok && sync_mismatch.is_none() {
+                        let at = exp.map(|c| c.len()).unwrap_or(0);
+                        sync_mismatch = Some(format!("at the fsync of file {} the OS held {} bytes (hash {}), the trace implies {} bytes (hash {})", file, len, fnv, at, exp.map(|c| fnv64(c)).unwrap_or(0)));
+                    }
+                    r.stats.inc("crash.sync_content_compared");
+                }
+                Event::SyncedDir(files) => {
+                    let exp: Vec<u64> = trace_img.keys().copied().collect();
+                    if *files != exp && sync_mismatch.is_none() {
+                        sync_mismatch = Some(format!("at the fsync of the directory it held the WAL files {:?}, the trace implies {:?}", files, exp));
+                    }
+                }
+                _ => {}
+            }
         }
         seen_events = r.real.all_events.len();
-        while applied_os < os.len() {
-            apply_os(&mut trace_img, &os[applied_os], None);
-            applied_os += 1;
+        if let Some(what) = sync_mismatch {
+            r.violate("*", format!("during `{}`: {} (an operation between two hooks that the hooks do not see, e.g. a flush reported before the sync but performed after it)", { let l = op.line(); l[..l.len().min(60)].to_string() }, what));
         }
         ncall += 1;
         if !r.dead && r.real.log.is_some() && (trace_img.len() <= 6 || ncall % 8 == 0) {
